@@ -198,6 +198,19 @@ def gen_a(seed):
                                        f"end subroutine sepp{sx}", "end interface", f"end module {smod}",
                                        f"submodule ({smod}) {ssub}", "!! doc", "contains", f"module subroutine sepp{sx}(x)", "!! impl doc", "integer, intent(in) :: x",
                                        f"end subroutine sepp{sx}", f"end submodule {ssub}"]) + "\n"
+    # two modules that export a type and a procedure under the same names (each documented on its own page)
+    dup = []
+    for tag in ("x", "y"):
+        mn, tm, tt, tp_ = f"adup{tag}{sx}", T(), T(), T()
+        me = Ent("A", mn, "module", mn, "public", tm)
+        ents.append(me)
+        mods.append(me)
+        te = Ent("A", mn, "type", f"dupnode{sx}", "public", tt)
+        pe = Ent("A", mn, "subroutine", f"dupsolve{sx}", "public", tp_)
+        ents += [te, pe]
+        dup.append((me, te, pe))
+        files[f"dup_{tag}.f90"] = "\n".join([f"module {mn}", f"!! doc {tm}", "implicit none", f"type :: dupnode{sx}", f"!! doc {tt}", f"integer :: of_{tag}", f"end type dupnode{sx}", "contains",
+                                              f"subroutine dupsolve{sx}(x)", f"!! doc {tp_}", "integer, intent(in) :: x", f"end subroutine dupsolve{sx}", f"end module {mn}"]) + "\n"
     chain = rng.random() < 0.4
     if chain:
         # A itself is documented against an externalised project A0 and extends one of its types: entities that A only imports
@@ -221,7 +234,7 @@ def gen_a(seed):
         a0 = {f"a0{sx}.f90": "\n".join([f"module a0mod{sx}", "!! doc", "implicit none", f"type :: a0t{sx}", "!! doc", "integer :: inherited_c", "!! doc", "contains",
                                          "procedure :: a0bound => a0impl", "!! doc", f"end type a0t{sx}", "contains", "subroutine a0impl(self)", f"class(a0t{sx}) :: self", "end subroutine a0impl",
                                          f"end module a0mod{sx}"]) + "\n"}
-    return {"files": files, "ents": ents, "modules": mods, "sx": sx, "a0": a0}
+    return {"files": files, "ents": ents, "modules": mods, "sx": sx, "a0": a0, "dup": dup}
 
 
 def gen_b(seed, A):
@@ -249,7 +262,7 @@ def gen_b(seed, A):
     local_clash_mod = None
     if rng.random() < 0.5:
         # B defines a module with the name of one of A's modules, and uses it
-        victim = rng.choice(A["modules"])
+        victim = rng.choice([m for m in A["modules"] if not m.name.startswith("adup")])
         local_clash_mod = victim
         t = T()
         pt = T()
@@ -258,7 +271,7 @@ def gen_b(seed, A):
         ents += [lm, lp]
         files["clash_mod.f90"] = f"module {victim.name}\n!! doc {t}\ncontains\nsubroutine own_proc{sx}()\n!! doc {pt}\nend subroutine\nend module {victim.name}\n"
         clashes.append(victim)
-    usable_mods = [m for m in A["modules"] if m is not local_clash_mod and by_mod.get(m.name)]
+    usable_mods = [m for m in A["modules"] if m is not local_clash_mod and by_mod.get(m.name) and not m.name.startswith("adup")]
     nb = rng.randint(1, 3)
     mod_info = []
     all_visible = []
@@ -432,6 +445,16 @@ def gen_b(seed, A):
         files[f"b{bi}.f90"] = "\n".join(L) + "\n"
         mod_info.append((bi, bt, set(visible), own))
         all_visible.append(dict(visible))
+    # one module of B per equally named pair of A: the type and the procedure each of them uses are those of the module it names
+    for k, (me, te, pe) in enumerate(A.get("dup", [])):
+        bn, bt, t1, t2 = f"bdup{k}_{sx}", T(), T(), T()
+        ents.append(Ent("B", bn, "module", bn, "public", bt))
+        ents.append(Ent("B", bn, "type", f"bduph{k}_{sx}", "public", t1))
+        ents.append(Ent("B", bn, "subroutine", f"bdupp{k}_{sx}", "public", t2))
+        files[f"bdup{k}.f90"] = "\n".join([f"module {bn}", f"!! doc {bt}", f"use {me.name}", "implicit none", f"type :: bduph{k}_{sx}", f"!! doc {t1}", f"type({te.name}) :: held", f"end type bduph{k}_{sx}",
+                                            "contains", f"subroutine bdupp{k}_{sx}()", f"!! doc {t2}", f"call {pe.name}(1)", f"end subroutine bdupp{k}_{sx}", f"end module {bn}"]) + "\n"
+        refs.append({"src": t1, "via": "component_type_among_equally_named_external", "text": te.name, "target": te, "strict_own_page": True})
+        refs.append({"src": t2, "via": "call_among_equally_named_external", "text": pe.name, "target": pe, "needs_graph": True, "strict_own_page": True})
     # a bare [[name]] in the documentation of ANOTHER module of B: not found among that module's own contents, so the project-wide
     # search decides - B's own entity must come before A's entity of the same name
     own_count = {}
@@ -735,6 +758,8 @@ def case(arg):
             if not (r["via"] == "doc_link" and r.get("form") in ("plain", "plain_ext_class")):
                 also = []
             need_frag = None
+            if r.get("strict_own_page"):
+                src_pages = [p for p in src_pages if p.split(os.sep)[0] in ("type", "proc")]
             if r["via"].startswith("call_inherited_binding"):
                 # the call graph on the calling procedure's own page: the node of the inherited binding leads to the binding on A's type page
                 src_pages = [p for p in src_pages if p.split(os.sep)[0] == "proc"]
